@@ -216,6 +216,14 @@ def r08_2(prog, out):
                 continue
             n += 1
             key = "backlog:%s:%s" % (prog.short(bid), e.lib.split("::")[-1])
+            if e.lib.split("::")[-1] == "drain":
+                # `drain(..n)` / `drain(..)` takes a prefix (or everything) from the front, in order: n pop_fronts
+                lb, lbb = e.leaf()
+                lt = prog.info(lb).call_at(lbb)
+                rng = [a for a in (lt.callee.args if lt is not None and lt.callee is not None else []) if a.startswith("std::ops::Range")]
+                if rng and (rng[0].startswith("std::ops::RangeTo<") or rng[0] == "std::ops::RangeFull"):
+                    out.holds(key, prog.loc(lb, lbb), "drain of a prefix keeps queue order (%s)" % rng[0].split("::")[-1])
+                    continue
             if k == "insert_back" or k == "remove_front":
                 out.holds(key, prog.loc(*e.leaf()), "%s keeps queue order" % e.lib.split("::")[-1])
             elif k in ("insert_front", "insert_any", "remove_back", "remove_any", "reorder", "insert", "remove"):
